@@ -27,5 +27,5 @@ for id in "$@"; do
   [ $rc -eq 2 ] && grep -E "HARNESS|Error|error" "$scratch/.out.$id" | head -5
 done
 rm -rf /verif/evidence; mv $keep/ev /verif/evidence; rm -rf $keep
-git -C /verif clean -fdq replays 2>/dev/null; git -C /verif checkout -q -- replays 2>/dev/null
+git -C /verif clean -fdq -e 'fixed_*' replays 2>/dev/null; git -C /verif checkout -q -- replays 2>/dev/null
 exit 0
